@@ -644,8 +644,8 @@ def call_section(ctx, M):
     def bound_star(ex, st, fn, args, kwargs, star, dstar):
         if fn.mname != 'apply' or fn.recv.kind != 'pdict' or dstar is None or len(args) != 1:
             return NotImplemented
-        ex.use('assumed contract:Dict.apply(f, **defaults) is a function of f, the mapping at that moment and the defaults '
-               '(= kwargs_support(f)(**{**defaults, **self}); kwargs_support.wrapped is under contract in C18)')
+        ex.use('callee contract:Dict.apply(f, **defaults) is a function of f, the mapping at that moment and the defaults '
+               '(= kwargs_support(f)(**{**defaults, **self}): body verified in Dict.apply.*; kwargs_support.wrapped is under contract in C18)')
         Sn = th.reify_dict(fn.recv.pd, 'snap')
         Kw = th.reify_dict(dstar.pd, 'defaults')
         st.ghost['last_apply'] = (Sn.t, Kw.t)
@@ -860,6 +860,7 @@ def build(ctx):
     for cls in ('dictattr', 'Dict'):
         dictattr_section(ctx, M, cls)
     ctx.guarded('Dict.__call__', lambda: call_section(ctx, M))
+    ctx.guarded('Dict.apply', lambda: apply_section(ctx, M))
     inherit_replay(ctx)
 
     # ------------------------------------------------------------------ frame: operations that return a new object never alter their operands
@@ -867,6 +868,71 @@ def build(ctx):
         from pyvc import own
         own.post_all(ctx, own.table_report(PROP), replay=frame_replay)
     ctx.guarded('frame', frame_section)
+
+
+def apply_section(ctx, M):
+    """Dict.apply(self, function, **default_params) for a callable `function`, executed from the real AST: the keywords handed to
+    kwargs_support(function) are {**default_params, **self} - every item of the mapping under its own name, the mapping winning over a
+    default of the same name - and the result is what that call returns.  This is the contract Dict.__call__ uses for res.apply(f, key = k)."""
+    mD = M['mD']
+    key = 'Dict.apply'
+    if key not in M['inline']:
+        raise SelectorError('Dict.apply not found')
+    th = Maps(M['classes'])
+    CLS = Const('type_self', Cls)
+    K0 = Const('K0', Val)
+    self_ = th.sym_dict('d', cls='Dict', tag=CLS, kty='str')
+    kw = th.sym_dict('defaults', cls='dict', kty='str', own=True)
+    Dd, KW = self_.pd, kw.pd
+    F = Const('f', Val)
+    KS = Function('kwargs_support_of', Val, Val)
+    RES = Function('call_result', Val, Dct, Val)
+    seen = {}
+
+    def ks_contract(ex, st, args, kwargs, star=None, dstar=None):
+        if len(args) != 1 or kwargs or star is not None or dstar is not None:
+            raise OutOfSubset('kwargs_support called with more than the function')
+        ex.use('callee contract:kwargs_support(f) is a callable that passes f the keywords f declares (C18 kwargs_support.*)')
+        seen['wrapped_arg'] = th.to_val(ex, args[0])
+        return V(KS(th.to_val(ex, args[0])), 'callable')
+    th.contracts['kwargs_support'] = ks_contract
+
+    def call_contract(ex, st, fn, args, kwargs, star, dstar):
+        if fn.kind != 'val' or args or kwargs or star is not None or dstar is None or dstar.kind != 'pdict':
+            return NotImplemented
+        P = th.reify_dict(dstar.pd, 'passed')
+        seen.setdefault('calls', []).append((fn.t, dstar.pd, P.t))
+        return V(RES(fn.t, P.t))
+    th.contracts['__call__'] = call_contract
+    ex = Exec(mD, [th], inline=M['inline'], name='Dict.apply')
+    st = State()
+    outs = ex.run_function(st, key, [self_, V(F, 'callable')], {'**': kw})
+    inst = finish(ctx, ex, th, [K0])
+    ctx.record_function(mD, key, M['inline'][key][1], ex.stmts_executed, excluded=['function not callable: returns self[function] (item access, dictattr.getitem.* obligations)'])
+    kwp = dict(witness=dict(K0=K0, K0_in_d=Dd.dom(K0), K0_in_defaults=KW.dom(K0)), replay=rp('apply', 'Dict', 'apply'))
+    pre = 'Dict.apply.'
+    nret = 0
+    for out in outs:
+        hy = ex.facts + out.st.pc + inst
+        if out.kind != 'return':
+            ctx.post(pre + 'never_raises.%s' % out.val, hy, BoolVal(False), kind='safety', **kwp)
+            continue
+        nret += 1
+        calls = seen.get('calls', [])
+        ctx.post(pre + 'the_function_is_called_once_through_kwargs_support', hy, BoolVal(len(calls) == 1 and seen.get('wrapped_arg') is not None), **kwp)
+        if len(calls) != 1:
+            continue
+        fn_t, P, Pt = calls[0]
+        ctx.post(pre + 'wraps_the_given_function', hy, And(fn_t == KS(F), seen['wrapped_arg'] == F), **kwp)
+        ctx.post(pre + 'passes_exactly_the_items_and_the_defaults', hy, P.dom(K0) == Or(Dd.dom(K0), KW.dom(K0)), **kwp)
+        ctx.post(pre + 'an_item_of_the_mapping_wins_over_a_default_of_the_same_name', hy + [Dd.dom(K0)], P.get(K0) == Dd.get(K0), **kwp)
+        ctx.post(pre + 'a_default_is_passed_where_the_mapping_has_no_such_item', hy + [Not(Dd.dom(K0)), KW.dom(K0)], P.get(K0) == KW.get(K0), **kwp)
+        ctx.post(pre + 'returns_what_the_call_returns', hy, BoolVal(out.val.kind == 'val') if out.val.kind != 'val' else out.val.t == RES(fn_t, Pt), **kwp)
+        cur = out.st.env.get('self')
+        ctx.post(pre + 'receiver_unchanged', hy, BoolVal(cur is not None and cur.kind == 'pdict' and cur.pd is Dd), kind='frame', **kwp)
+    if not nret:
+        raise OutOfSubset('Dict.apply has no returning path')
+    ctx.cover(pre + 'precondition', [Dd.dom(K0), KW.dom(K0), Dd.get(K0) != KW.get(K0)] + th.inst([K0]))
 
 
 def frame_replay(d):
